@@ -75,6 +75,26 @@ fn case_dt(day: i64, nod: u64, prev: i32, o: i32, partner: (i64, u64), deep: boo
         }
         other => acc.violation("DateTime::set_offset", "panic", case(), "a value".into(), other.show()),
     }
+    // ---- history independence on the nanosecond axis: a sibling instant at one of the code's own
+    // time units away (same second / minute / hour / day or the next one) is read under the same
+    // offset right after the value itself; its fields must be the reference's for the sibling alone
+    const NDIST: [i128; 12] = [1, -1, 1_000, -1_000, 1_000_000, 999_999_999, 1_000_000_000, -1_000_000_000, 60_000_000_000, 3_600_000_000_000, 86_400_000_000_000, -86_400_000_000_000];
+    let delta = NDIST[((inst + o as i128).rem_euclid(NDIST.len() as i128)) as usize];
+    let sib = inst + delta;
+    let (sday, snod) = ins::split(sib);
+    if ins::representable(sib + o as i128 * ins::NS) && ins::representable(sib) {
+        if let Some(sx) = dt_from(sday, snod) {
+            acc.transitions += 1;
+            let got = call(|| {
+                let y = sx.set_offset(Offset::Fixed(o));
+                (getters(&y), y.timestamp())
+            });
+            let want = (fields::all_getters(sib + o as i128 * ins::NS), ins::unix_secs(sib));
+            if got != Out::Val(want) {
+                acc.violation("DateTime getters after set_offset", "sibling-read-depends-on-the-previous-call", case(), format!("sibling at {} ns: {:?}", delta, want), got.show());
+            }
+        }
+    }
     // ---- as_offset: fields kept (offset-0 receivers), instant moved by -o
     let got = call(|| {
         let before = getters(&x);
